@@ -26,6 +26,10 @@ def cases(res):
             for hl in ((3, 4) if res.tier == "quick" else (1, 2, 3, 4)):
                 n = rng.choice([18, 27, 35, 41]) if p < 32 else 140
                 add(n, {"intra_period_length": p, "intra_refresh_type": rt, "hierarchical_levels": hl})
+    # streams longer than the picture-control-set pools (objects are recycled), few threads = small pools
+    for p, hl in ((-1, 4), (9, 4), (13, 4), (-1, 3), (6, 3)):
+        add(60 if res.tier == "quick" else 130, {"intra_period_length": p, "intra_refresh_type": 2, "hierarchical_levels": hl, "logical_processors": 1})
+    add(60, {"intra_period_length": 9, "intra_refresh_type": 1, "logical_processors": 1})
     for p in (7, 15):
         add(34, {"intra_period_length": p, "intra_refresh_type": 2, "enable_overlays": 1, "tf_level": 1, "hierarchical_levels": 3})
         add(34, {"intra_period_length": p, "intra_refresh_type": 2, "look_ahead_distance": 17, "enable_tpl_la": 1})
